@@ -517,6 +517,18 @@ func (ww *workerWorld) lastResetSeq() uint64 {
 	return ww.resets[len(ww.resets)-1].Seq
 }
 
+func (ww *workerWorld) lastResetBefore(event uint64) uint64 {
+	ww.mu.Lock()
+	defer ww.mu.Unlock()
+	var seq uint64
+	for _, r := range ww.resets {
+		if r.Seq <= event {
+			seq = r.Seq
+		}
+	}
+	return seq
+}
+
 // quiescent: every committed log of every ledger with an enabled pipeline has been acknowledged since
 // the last reset (used to end the run early; the liveness oracle is separate).
 func (ww *workerWorld) quiescent(r *runner) bool {
